@@ -125,35 +125,27 @@ impl<const N: usize, const W: usize> Write for ScriptStream<N, W> {
     fn flush(&mut self) -> io::Result<()> { Ok(()) }
 }
 
-/// A writer that accepts a solver-chosen prefix (>= `min_accept`, <= buf.len())
-/// of every write, and optionally fails at a solver-chosen call.
-pub struct ShortWriter<const W: usize> {
+/// A writer that accepts a solver-chosen non-empty prefix (1..=buf.len()) of
+/// every write and never fails. (No `Err` is constructed anywhere in it: an
+/// io::Error that CBMC considers feasible drags the whole `dyn Error` universe
+/// into std's write_all, see S7.)
+pub struct PrefixWriter<const W: usize> {
     pub out: [u8; W],
     pub out_len: usize,
     pub calls: usize,
-    pub fail_at: usize,      // call index at which write returns Err (usize::MAX = never)
-    pub failed: bool,
-    pub allow_zero_first: bool,
 }
 
-impl<const W: usize> ShortWriter<W> {
-    pub fn new(fail_at: usize) -> Self {
-        ShortWriter { out: [0; W], out_len: 0, calls: 0, fail_at, failed: false, allow_zero_first: false }
-    }
+impl<const W: usize> PrefixWriter<W> {
+    pub fn new() -> Self { PrefixWriter { out: [0; W], out_len: 0, calls: 0 } }
 }
 
-impl<const W: usize> Read for ShortWriter<W> {
+impl<const W: usize> Read for PrefixWriter<W> {
     fn read(&mut self, _buf: &mut [u8]) -> io::Result<usize> { Ok(0) }
 }
 
-impl<const W: usize> Write for ShortWriter<W> {
+impl<const W: usize> Write for PrefixWriter<W> {
     fn write(&mut self, buf: &[u8]) -> io::Result<usize> {
-        let call = self.calls;
         self.calls += 1;
-        if call == self.fail_at {
-            self.failed = true;
-            return Err(io::Error::from(io::ErrorKind::BrokenPipe));
-        }
         if buf.len() == 0 {
             return Ok(0);
         }
@@ -167,6 +159,39 @@ impl<const W: usize> Write for ShortWriter<W> {
             self.out_len += 1;
             i += 1;
         }
+        Ok(k)
+    }
+    fn flush(&mut self) -> io::Result<()> { Ok(()) }
+}
+
+/// A writer that accepts a solver-chosen non-empty prefix per call and fails
+/// with BrokenPipe at call index `fail_at`. Counts only.
+pub struct FailWriter {
+    pub out_len: usize,
+    pub calls: usize,
+    pub fail_at: usize,
+    pub failed: bool,
+}
+
+impl FailWriter {
+    pub fn new(fail_at: usize) -> Self { FailWriter { out_len: 0, calls: 0, fail_at, failed: false } }
+}
+
+impl Read for FailWriter {
+    fn read(&mut self, _buf: &mut [u8]) -> io::Result<usize> { Ok(0) }
+}
+
+impl Write for FailWriter {
+    fn write(&mut self, buf: &[u8]) -> io::Result<usize> {
+        let c = self.calls;
+        self.calls += 1;
+        if c == self.fail_at {
+            self.failed = true;
+            return Err(io::Error::from(io::ErrorKind::BrokenPipe));
+        }
+        let k: usize = kani::any();
+        kani::assume(k >= 1 && k <= buf.len());
+        self.out_len += k;
         Ok(k)
     }
     fn flush(&mut self) -> io::Result<()> { Ok(()) }
@@ -235,3 +260,9 @@ pub fn fixed_random_state() -> std::collections::hash_map::RandomState {
 pub fn empty_format(_args: std::fmt::Arguments) -> String {
     String::new()
 }
+
+/// S7: harness streams never return ErrorKind::Interrupted; std's retry test in
+/// read_exact / write_all decodes io::Error's bit-packed pointer representation,
+/// which CBMC cannot fold (every representation incl. Box<dyn Error> becomes
+/// feasible and the whole `dyn Error` universe is explored).
+pub fn never_interrupted(_e: &std::io::Error) -> bool { false }
